@@ -666,6 +666,29 @@ func (tr *translator) expr(x ast.Expr, e env) Sum {
 	case *ast.BinaryExpr:
 		switch n.Op {
 		case token.EQL, token.NEQ:
+			// m == nil for a map m
+			isNil := func(x ast.Expr) bool {
+				id, ok := ast.Unparen(x).(*ast.Ident)
+				if !ok {
+					return false
+				}
+				_, isNil := tr.info.Uses[id].(*types.Nil)
+				return isNil
+			}
+			isMap := func(x ast.Expr) bool {
+				t := tr.info.TypeOf(x)
+				if t == nil {
+					return false
+				}
+				_, ok := t.Underlying().(*types.Map)
+				return ok
+			}
+			switch {
+			case isNil(n.Y) && isMap(n.X):
+				return SCmp{Neg: n.Op == token.NEQ, A: tr.expr(n.X, e), B: SConst{Value{Kind: VNilTable}}}
+			case isNil(n.X) && isMap(n.Y):
+				return SCmp{Neg: n.Op == token.NEQ, A: SConst{Value{Kind: VNilTable}}, B: tr.expr(n.Y, e)}
+			}
 			return SCmp{Neg: n.Op == token.NEQ, A: tr.expr(n.X, e), B: tr.expr(n.Y, e)}
 		case token.LAND, token.LOR:
 			return SBin{And: n.Op == token.LAND, A: tr.expr(n.X, e), B: tr.expr(n.Y, e)}
